@@ -255,7 +255,9 @@ def run(tier, v):
     mcs.append(sem)
     lres = []
     for k, t, r in lruns:
-        ms = sorted(r["mismatches"], key=lambda m: (m.get("class") != "concurrency", m["case"], m["step"]))
+        # the request timeout itself (a waiting client answered 503 after T) is not part of the statement of C18
+        drift += len([m for m in r["mismatches"] if m.get("class") == "timeout"])
+        ms = sorted([m for m in r["mismatches"] if m.get("class") != "timeout"], key=lambda m: (m.get("class") != "concurrency", m["case"], m["step"]))
         for m in ms[:3]:
             rp = os.path.join(wd, "replay_sem_%d_%d_%d_%d.json" % (k, t, m["case"], m["step"]))
             json.dump({"k": k, "t": t, "behaviour": m.get("replay")}, open(rp, "w"))
